@@ -214,8 +214,13 @@ func (n *namer) call(base string) string {
 }
 
 // generatedNamePrefixes are the prefixes of the names the writer synthesises
-// outside the namer (interface block members, varyings, immediates).
-var generatedNamePrefixes = []string{"_group_", "_immediates_binding_", "_vs2fs_location", "_fs2p_location"}
+// outside the namer (interface block members, varyings, immediates, the
+// predeclared modf/frexp helpers, the first-instance uniform and the
+// _naga_* polyfills and loop counters).
+var generatedNamePrefixes = []string{
+	"_group_", "_immediates_binding_", "_vs2fs_location", "_fs2p_location",
+	"naga_modf", "naga_frexp", "naga_vs_first_instance", "_naga_",
+}
 
 // hasGeneratedNamePrefix reports whether a user identifier could collide with
 // a synthesised name.
